@@ -25,6 +25,12 @@ PROPS = {
         "trusted": COMMON_TRUST + ["TurboSHAKE128, HMAC-SHA256, AES-128 and CTR mode (turboshake, hmac, sha2, aes, ctr crates): modelled as functions of the absorbed message / as position-determined streams"],
         "assumptions": ["`Update::update` of the hash crates is concatenative; the TurboSHAKE reader and AES-CTR keystream are position-determined (checked by the oracle on random read sizes, not proved)"],
     },
+    "C12": {
+        "modules": ["PrioProofs.Props.C12"],
+        "rule": "instrumented order-sensitive aggregator with 1-4 rounds: every delivery sequence of depth 4 (thorough 5) over {correct, bit-flipped, truncated, re-typed to each of the three kinds, stale/replayed}, each followed by correct deliveries to completion, with a persist-reload-evaluate of every continuation; Prio3Sum and Poplar1 honest ping-pong runs against the broadcast execution; non-trivial = all scripts (each exercises a distinct delivery history);",
+        "trusted": COMMON_TRUST + ["the toy aggregator is implemented twice (Rust trait impl and Lean) from one specification"],
+        "assumptions": ["crash/restart is modelled as encode -> decode -> evaluate of the continuation; the storage layer is outside the library"],
+    },
     "C13": {
         "modules": ["PrioProofs.Props.C13"],
         "rule": "random multisets of 1-7 output shares of length 0-5 over four fields (extremes 0 and p-1 with probability 1/4), random permutation, random partition into batches, random merge-tree shape and merge direction, pairwise merges with length mismatch in 1/3 of the cases, Poplar1FieldVec kind/length mismatches; non-trivial = all;",
